@@ -74,6 +74,45 @@ def keepref_histories(prop, rng, nthird):
     return out
 
 
+SETTER_PROPS = ["vary", "allow", "content_language", "content_security_policy", "content_security_policy_report_only",
+                "content_range", "www_authenticate"]
+
+
+def alias_histories(prop, rng, nsample):
+    """whole-property assignment of an object that a view slot holds: the view read earlier (get / mutate / assign back),
+    a stale view, a view of another property of the same kind, a kept object after mutation, an object taken from another
+    response; followed by a mutation of that object and a re-read."""
+    kind, _ = hv.VIEWS[prop]
+    ops = hv.ops_for(kind, small=True)
+    seeds = _seeds(prop)
+    S = seeds[1] if len(seeds) > 1 else seeds[0]
+    g1, g2 = {"op": "get_view", "prop": prop, "vw": 1}, {"op": "get_view", "prop": prop, "vw": 2}
+    al = lambda n, p=prop, tag="alias": {"op": "assign", "prop": p, "tag": tag, "n": n}  # noqa: E731
+    pick = lambda vw: dict(rng.choice(ops), vw=vw)  # noqa: E731
+    out = [[S, g1, al(1)], [g1, al(1)], [S, g1, al(1), pick(1)], [S, g1, {"op": "direct_edit", "prop": prop, "y": None}, al(1), pick(1)]]
+    for o in ops:                                        # get / mutate / assign back
+        out.append([S, g1, dict(o, vw=1), al(1)])
+    for _ in range(nsample):
+        out.append([S, g1, g2, pick(2), al(1), pick(rng.choice([1, 2]))])                      # stale view object
+        out.append([S, g1, rng.choice(seeds), al(1), pick(1)])                                  # header edited meanwhile
+        out.append([S, g1, pick(1), pick(1), al(1), pick(1), al(1)])
+    others = [p for p in SETTER_PROPS if p != prop and hv.VIEWS[p][0] == kind]
+    for p2 in others:                                                                           # another property, same kind
+        out.append([S, g1, al(1, p2), pick(1)])
+        for _ in range(nsample):
+            out.append([S, g1, pick(1), al(1, p2), pick(1), {"op": "get_view", "prop": p2, "vw": 3}, pick(3), al(3)])
+    keeps = [o for o in hv.prop_ops(prop) if o["op"] == "assign" and o.get("vw") and not o.get("n")]
+    for a in keeps:                                                                             # kept object, mutated, assigned again
+        a2 = dict(a, vw=2)
+        out.append([g1, a2, pick(2), al(2)])
+        out.append([g1, a2, pick(2), al(2), pick(2)])
+        if a["tag"] in ("value", "list") and not a.get("via"):
+            out.append([g1, dict(a2, via="other"), pick(2), al(2)])                             # object from another response
+    if kind == "wa":
+        out += [[S, g1, pick(1), al(1, tag="alias_list")], [S, g1, al(1, tag="alias_list"), pick(1)]]
+    return out
+
+
 def random_walk(rng: random.Random, n: int):
     """one Response, several view properties with up to two live views each, scalars, direct edits"""
     props = rng.sample(hv.VIEW_PROPS, rng.randint(1, 3))
@@ -104,9 +143,15 @@ def random_walk(rng: random.Random, n: int):
                 vw = rng.choice(cands)
             slots[vw] = p
             steps.append({"op": "get_view", "prop": p, "vw": vw})
+        elif r < 0.84 and any(p in SETTER_PROPS for p in props):
+            p = rng.choice([p for p in props if p in SETTER_PROPS])      # assign (back) an object some slot holds
+            cands = [s for s, q in slots.items() if hv.VIEWS[q][0] == hv.VIEWS[p][0]]
+            steps.append({"op": "assign", "prop": p, "tag": "alias", "n": rng.choice(cands)})
         elif r < 0.92:
             p = rng.choice(props)
             o = dict(rng.choice(hv.prop_ops(p)))
+            if o.get("vw") and o.get("tag") in ("value", "list") and not o.get("n") and rng.random() < 0.3:
+                o["via"] = "other"
             if o.get("vw"):  # the assigned object is kept in a slot (live for www_authenticate = instance, else detached)
                 cands = [s for s, q in slots.items() if q == p]
                 if rng.random() < 0.5 and nslot < 7:
@@ -245,6 +290,13 @@ def _model_step(act):
     st = {"op": op, "vw": act["vw"]}
     if op in ("get_view", "direct_edit", "assign"):
         st["prop"] = prop
+    if op == "assign" and act["tag"] == "alias":
+        st.update(tag="alias", n=act["n"])
+        return st
+    if op == "alias_params":
+        st["tag"] = act["tag"]
+        st["x"], st["y"] = _s(act["x"]), _text(act["y"])
+        return st
     if op == "assign":
         st["tag"] = act["tag"]
         if act["k"] == "wa":
@@ -376,7 +428,7 @@ def run(ctx: Ctx):
         for k in ("set", "wa", "cc"):
             ctx.model_check(AREA, "HVModel", f"MCT_{k}", timeout=3000)
     from .. import tlc
-    for cfg in ("MCQ_orig_set", "MCQ_orig_wa", "MCQ_nobind_wa"):
+    for cfg in ("MCQ_orig_set", "MCQ_orig_wa", "MCQ_nobind_wa", "MCQ_aliasclear_wa"):
         r = tlc.run_tlc(AREA, "HVModel", cfg, workers=ctx.workers, tmp=ctx.tmp, allow_violation=True, timeout=600)
         ctx.notes[f"{cfg}_violates"] = r.invariant_violated
         if not r.invariant_violated:
@@ -394,6 +446,8 @@ def run(ctx: Ctx):
         traces += rng.sample(hs, min(len(hs), 60 if q else 1500))
     for p in hv.VIEW_PROPS:
         traces += keepref_histories(p, rng, 6 if q else 200)
+    for p in SETTER_PROPS:
+        traces += alias_histories(p, rng, 3 if q else 150)
     traces += scalar_traces(rng)
     for _ in range(170 if q else 5000):
         traces.append(random_walk(rng, rng.randint(6, 14)))
